@@ -115,6 +115,9 @@ proof fn lemma_a1_small_range(s: Seq<u8>, nl: int)
 }
 
 // ---------------------------------------------------------------- callees whose contracts are PROVED in unit a1 (identical contract text)
+// (callee of get_row_and_optional_column's body, which rustc still type-checks; under contract in unit a1)
+//@@ fn src/xlsx/mod.rs add_digit external_body
+//@@ end
 //@@ fn src/xlsx/mod.rs get_row_and_optional_column ret=r external_body
 //@@ sig
     // TRUSTED: the three clauses below are proved on the real text in unit a1 (a1/get_row_and_optional_column); unit a1 also registers the
@@ -152,18 +155,14 @@ proof fn lemma_a1_small_range(s: Seq<u8>, nl: int)
 // ---------------------------------------------------------------- coordinate_to_name: to_string/into_bytes/concat are outside vstd
 //@@ fn src/xlsx/mod.rs coordinate_to_name props=C15 ret=r external_body by=coordinate_to_name_rows,coordinate_to_name_cols
 //@@ sig
-    // TRUSTED: discharged only up to the bounds of the Kani harnesses kani/xlsxf (row < 100 x col = 27; every col < 16384 x row = 7).
-    // The precondition is the no-overflow condition of `cell.0 + 1`; kani/xlsxf/coordinate_to_name_total exhibits the panic without it.
-    requires
-        //# C06.row_plus_one_fits
-        cell.0 < u32::MAX,
+    // TRUSTED: discharged only up to the bounds of the Kani harnesses kani/xlsxf (row < 100 x col = 27; every col < 16384 x row = 7;
+    // no panic for the rows next to u32::MAX: kani/xlsxf/coordinate_to_name_total).  No precondition: `cell.0 as u64 + 1` cannot overflow.
     ensures
         //# C15.name_err_iff_col_out_of_range
         cell.1 >= 16384 <==> r is Err,
         //# C15.name_is_letters_then_decimal
         cell.1 < 16384 ==> r is Ok && is_name_of(r->Ok_0@, cell.0 as int, cell.1 as int),
 //@@ end
-proof fn witness_coordinate_to_name() { let c: (u32, u32) = (0u32, 0u32); assert(c.0 < u32::MAX); }
 
 // ---------------------------------------------------------------- std behaviour outside vstd
 pub open spec fn is_ascii_c(c: char) -> bool { (c as u32) < 0x80 }
@@ -177,18 +176,21 @@ pub assume_specification[ char::is_ascii_alphabetic ](c: &char) -> (r: bool)
 // TRUSTED: documented behaviour of char::is_ascii_digit ("U+0030 '0' ..= U+0039 '9'")
 pub assume_specification[ char::is_ascii_digit ](c: &char) -> (r: bool)
     ensures r == ('0' <= *c && *c <= '9');
-// TRUSTED: <Vec<T> as AsRef<[T]>>::as_ref is the slice of the same elements
-pub assume_specification<T, A: std::alloc::Allocator>[ <Vec<T, A> as AsRef<[T]>>::as_ref ](v: &Vec<T, A>) -> (r: &[T])
-    ensures r@ == v@;
-/// the items an IntoIterator value yields, in order
-pub uninterp spec fn iter_items<T, I>(it: I) -> Seq<T>;
-// TRUSTED: documented behaviour of Vec::extend (appends every item of the iterator, in order)
-pub assume_specification<T, A: std::alloc::Allocator, I: IntoIterator<Item = T>>[ <Vec<T, A> as Extend<T>>::extend ](v: &mut Vec<T, A>, it: I)
-    ensures final(v)@ == old(v)@ + iter_items::<T, I>(it);
-// TRUSTED: a Vec<u8> iterated by value yields its elements in order
+// TRUSTED: documented behaviour of char::is_ascii_alphanumeric ("U+0041 'A' ..= U+005A 'Z', or U+0061 'a' ..= U+007A 'z', or U+0030 '0' ..= U+0039 '9'")
+pub assume_specification[ char::is_ascii_alphanumeric ](c: &char) -> (r: bool)
+    ensures r == (('A' <= *c && *c <= 'Z') || ('a' <= *c && *c <= 'z') || ('0' <= *c && *c <= '9'));
+// TRUSTED: documented behaviour of char::is_ascii ("checks if the value is within the ASCII range")
+pub assume_specification[ char::is_ascii ](c: &char) -> (r: bool)
+    ensures r == is_ascii_c(*c);
+/// the chars an iterator over `&char` yields, in order
+pub uninterp spec fn iter_chars<I>(it: I) -> Seq<char>;
+// TRUSTED: documented behaviour of String::extend (appends every char of the iterator, in order)
+pub assume_specification<'a, I: IntoIterator<Item = &'a char>>[ <String as Extend<&'a char>>::extend ](s: &mut String, it: I)
+    ensures final(s)@ == old(s)@ + iter_chars::<I>(it);
+// TRUSTED: a slice iterator yields the elements it has not yielded yet, in order
 #[verifier::external_body]
-pub broadcast proof fn axiom_iter_items_vec_u8(v: Vec<u8>)
-    ensures #[trigger] iter_items::<u8, Vec<u8>>(v) == v@,
+pub broadcast proof fn axiom_iter_chars_slice<'a>(it: std::slice::Iter<'a, char>)
+    ensures #[trigger] iter_chars::<std::slice::Iter<'a, char>>(it) == it.remaining().map_values(|c: &char| *c),
 {}
 // TRUSTED: stands for the expression `xs.iter().map(|c| *c as u8)` collected (see the `replace` directives below): vstd's spec of
 // Map gives no relation to the closure at construction time, so the four occurrences are rewritten into a call of this function.
@@ -198,39 +200,18 @@ fn verif_low_bytes(xs: &[char]) -> (r: Vec<u8>)
 {
     xs.iter().map(|c| *c as u8).collect()
 }
-/// UTF-8 encoding
-pub uninterp spec fn utf8(s: Seq<char>) -> Seq<u8>;
-// TRUSTED: UTF-8 encodes every ASCII char as the byte of the same value
-#[verifier::external_body]
-pub proof fn axiom_utf8_ascii(s: Seq<char>)
-    requires all_ascii(s),
-    ensures utf8(s) == lowb(s),
-{}
-// TRUSTED: UTF-8 is injective
-#[verifier::external_body]
-pub proof fn axiom_utf8_injective(s: Seq<char>, t: Seq<char>)
-    requires utf8(s) == utf8(t),
-    ensures s == t,
-{}
-// TRUSTED: documented behaviour of String::from_utf8: Ok(the string whose UTF-8 encoding is the vector) iff the vector is valid UTF-8
-pub assume_specification[ String::from_utf8 ](v: Vec<u8>) -> (r: Result<String, std::string::FromUtf8Error>)
-    ensures
-        r is Ok ==> utf8(r->Ok_0@) == v@,
-        r is Err ==> forall|s: Seq<char>| utf8(s) != v@;
-
 pub open spec fn bytes_ascii(v: Seq<u8>) -> bool { forall|i: int| 0 <= i < v.len() ==> #[trigger] v[i] < 0x80 }
 pub open spec fn as_chars(v: Seq<u8>) -> Seq<char> { Seq::new(v.len(), |i: int| v[i] as char) }
 
 proof fn lemma_ascii_roundtrip(v: Seq<u8>)
     requires bytes_ascii(v),
-    ensures all_ascii(as_chars(v)), lowb(as_chars(v)) == v, utf8(as_chars(v)) == v,
+    ensures all_ascii(as_chars(v)), lowb(as_chars(v)) == v,
 {
     let s = as_chars(v);
     assert forall|i: int| 0 <= i < s.len() implies is_ascii_c(#[trigger] s[i]) by { assert(v[i] < 0x80); }
     assert(lowb(s) =~= v) by {
         assert forall|i: int| 0 <= i < v.len() implies lowb(s)[i] == v[i] by { assert(v[i] < 0x80); assert(s[i] == v[i] as char); }
     }
-    axiom_utf8_ascii(s);
 }
 
 pub broadcast proof fn lemma_bytes_ascii_add(a: Seq<u8>, b: Seq<u8>)
@@ -279,12 +260,12 @@ pub open spec fn offset_small(offset: (i64, i64)) -> bool {
     ensures
         //# C15.relative_shift
         forall|nl: int| #[trigger] plain_ref(name@, nl)
-            && 0 <= ref_row(name@, nl) + offset.0 < 0xFFFF_FFFF && 0 <= ref_col(name@, nl) + offset.1 < 16384 ==>
+            && 0 <= ref_row(name@, nl) + offset.0 <= 0xFFFF_FFFF && 0 <= ref_col(name@, nl) + offset.1 < 16384 ==>
             r is Ok && is_name_of(r->Ok_0@, ref_row(name@, nl) + offset.0, ref_col(name@, nl) + offset.1),
-        //# C15.shift_out_of_columns_rejected
-        // (a negative column sum is not stated: Verus leaves the out-of-range `as u32` cast unspecified)
+        //# C15,C06.shift_out_of_sheet_rejected
+        // (a reference moved above row 1, left of column A, right of column XFD or beyond the u32 rows is an error, not a wrapped name)
         forall|nl: int| #[trigger] plain_ref(name@, nl)
-            && 0 <= ref_row(name@, nl) + offset.0 < 0xFFFF_FFFF && 16384 <= ref_col(name@, nl) + offset.1 < 0x1_0000_0000 ==> r is Err,
+            && !(0 <= ref_row(name@, nl) + offset.0 <= 0xFFFF_FFFF && 0 <= ref_col(name@, nl) + offset.1 < 16384) ==> r is Err,
         //# C15.non_reference_rejected
         forall|nl: int| all_ascii(name@) && #[trigger] a1_small(lowb(name@), nl)
             && (nl == 0 || dec10(lowb(name@).subrange(nl, name@.len() as int)) == 0) ==> r is Err,
@@ -294,7 +275,7 @@ pub open spec fn offset_small(offset: (i64, i64)) -> bool {
         r is Ok ==> bytes_ascii(r->Ok_0@),
 //@@ replace /name\.iter\(\)\.map\(\|c\| \*c as u8\)\.collect::<Vec<_>>\(\)/ vstd's Map gives no relation to the closure; the expression is replaced by a call of verif_low_bytes, whose TRUSTED contract states what `.iter().map(|c| *c as u8).collect()` yields
 verif_low_bytes(name)
-//@@ before /coordinate_to_name\(/
+//@@ before /match \(row/
     proof {
         assert forall|nl: int| #[trigger] plain_ref(name@, nl) implies cell.0 == ref_row(name@, nl) && cell.1 == ref_col(name@, nl) by {
             lemma_a1_small_range(lowb(name@), nl);
@@ -330,21 +311,13 @@ pub open spec fn single_translated(ob: Seq<u8>, nlo: int, sb: Seq<u8>, p: int, n
     && (if m == 1 { dg == sb.subrange(p + nl + m, sb.len() as int) }
         else { all_digits(dg) && dg[0] != 0x30 && dec10(dg) == single_row(sb, p, nl, m) + dr + 1 })
 }
-/// the moved components stay inside the sheet
+/// the column exists (A..XFD: beyond it the letters+digits are a name, not a cell reference) and the moved components stay inside the sheet
 pub open spec fn single_in_sheet(sb: Seq<u8>, p: int, nl: int, m: int, dr: int, dc: int) -> bool {
-    (m == 1 || 0 <= single_row(sb, p, nl, m) + dr < 1048576) && (p == 1 || 0 <= single_col(sb, p, nl) + dc < 16384)
+    single_col(sb, p, nl) < 16384
+    && (m == 1 || 0 <= single_row(sb, p, nl, m) + dr < 1048576) && (p == 1 || 0 <= single_col(sb, p, nl) + dc < 16384)
 }
 
-/// state of the scanner after k chars of a single-reference formula (see the loop invariant)
-pub open spec fn single_state(sb: Seq<u8>, p: int, nl: int, m: int, k: int, res: Seq<u8>, cell: Seq<u8>, is_cell_row: bool) -> bool {
-    if k <= p { res == sb.subrange(0, k) && cell.len() == 0 && !is_cell_row }
-    else if k <= p + nl { res == sb.subrange(0, p) && cell == sb.subrange(p, k) && !is_cell_row }
-    else if m == 1 { res == sb.subrange(0, p + nl + 1) && cell == sb.subrange(p + nl + 1, k) && is_cell_row == (k > p + nl + 1) }
-    else { res == sb.subrange(0, p) && cell == sb.subrange(p, k) && is_cell_row }
-}
-
-
-// ---- facts about the scanner on a single-reference formula (pure sequence reasoning; the code is not mentioned)
+// ---- facts about a single-reference formula (pure sequence reasoning; the code is not mentioned)
 proof fn lemma_single_char_class(sb: Seq<u8>, p: int, nl: int, m: int, nd: int, j: int)
     requires single_ref(sb, p, nl, m, nd), 0 <= j < sb.len(),
     ensures
@@ -356,91 +329,219 @@ proof fn lemma_single_char_class(sb: Seq<u8>, p: int, nl: int, m: int, nd: int, 
     if p <= j < p + nl { assert(is_upper(sb.subrange(p, p + nl)[j - p])); }
     if j >= p + nl + m { assert(is_digit(sb.subrange(p + nl + m, sb.len() as int)[j - (p + nl + m)])); }
 }
-proof fn lemma_step_letter(sb: Seq<u8>, p: int, nl: int, m: int, nd: int, j: int, res0: Seq<u8>, cell0: Seq<u8>, icr0: bool)
-    requires single_ref(sb, p, nl, m, nd), 0 <= j < sb.len(), single_state(sb, p, nl, m, j, res0, cell0, icr0), is_letter(sb[j]),
-    ensures !icr0, single_state(sb, p, nl, m, j + 1, res0, cell0.push(sb[j]), false),
-{
-    lemma_single_char_class(sb, p, nl, m, nd, j);
-    assert(p <= j < p + nl);
-    if j == p { assert(cell0 =~= sb.subrange(p, j)); }
-    assert(sb.subrange(p, j + 1) =~= sb.subrange(p, j).push(sb[j]));
+pub open spec fn alpha_c(c: char) -> bool { ('A' <= c && c <= 'Z') || ('a' <= c && c <= 'z') }
+pub open spec fn digit_c(c: char) -> bool { '0' <= c && c <= '9' }
+/// where the parser of offset_cell_reference stops on a name (facts the two scanning loops establish)
+pub open spec fn parse_stops(nm: Seq<char>, abs_col: bool, col_end: int, abs_row: bool, row_end: int) -> bool {
+    let cs = if abs_col { 1int } else { 0int };
+    let rs = if abs_row { col_end + 1 } else { col_end };
+    abs_col == (nm.len() > 0 && nm[0] == '$')
+    && cs <= col_end <= nm.len()
+    && (forall|i: int| cs <= i < col_end ==> alpha_c(#[trigger] nm[i]))
+    && (col_end == nm.len() || !alpha_c(nm[col_end]))
+    && abs_row == (col_end < nm.len() && nm[col_end] == '$')
+    && rs <= row_end <= nm.len()
+    && (forall|i: int| rs <= i < row_end ==> digit_c(#[trigger] nm[i]))
+    && (row_end == nm.len() || !digit_c(nm[row_end]))
 }
-proof fn lemma_step_digit(sb: Seq<u8>, p: int, nl: int, m: int, nd: int, j: int, res0: Seq<u8>, cell0: Seq<u8>, icr0: bool)
-    requires single_ref(sb, p, nl, m, nd), 0 <= j < sb.len(), single_state(sb, p, nl, m, j, res0, cell0, icr0), is_digit(sb[j]),
-    ensures single_state(sb, p, nl, m, j + 1, res0, cell0.push(sb[j]), true),
+/// on a single reference the parser finds exactly the `$`s, the letters and the digits of the grammar
+proof fn lemma_parse_positions(nm: Seq<char>, p: int, nl: int, m: int, nd: int, abs_col: bool, col_end: int, abs_row: bool, row_end: int)
+    requires all_ascii(nm), single_ref(lowb(nm), p, nl, m, nd), parse_stops(nm, abs_col, col_end, abs_row, row_end),
+    ensures abs_col == (p == 1), col_end == p + nl, abs_row == (m == 1), row_end == nm.len(),
 {
-    lemma_single_char_class(sb, p, nl, m, nd, j);
-    assert(j >= p + nl + m);
-    if m == 1 {
-        assert(sb.subrange(p + nl + 1, j + 1) =~= sb.subrange(p + nl + 1, j).push(sb[j]));
-    } else {
-        assert(sb.subrange(p, j + 1) =~= sb.subrange(p, j).push(sb[j]));
+    let sb = lowb(nm);
+    assert forall|j: int| 0 <= j < nm.len() implies
+        (j < p ==> nm[j] == '$') && (p <= j < p + nl ==> alpha_c(nm[j]) && nm[j] != '$')
+        && (j == p + nl && m == 1 ==> nm[j] == '$') && (j >= p + nl + m ==> digit_c(nm[j]) && !alpha_c(nm[j]) && nm[j] != '$') by {
+        lemma_single_char_class(sb, p, nl, m, nd, j);
+        assert(is_ascii_c(nm[j]));
+        assert(sb[j] == nm[j] as u8);
     }
+    assert(abs_col == (p == 1)) by { if p == 1 { assert(nm[0] == '$'); } else { assert(nm[0] != '$'); } }
+    if col_end < p + nl { assert(alpha_c(nm[col_end])); }
+    if col_end > p + nl { assert(alpha_c(nm[p + nl])); if m == 1 { assert(nm[p + nl] == '$'); } else { assert(digit_c(nm[p + nl])); } }
+    assert(col_end == p + nl);
+    assert(abs_row == (m == 1)) by { if m == 1 { assert(nm[p + nl] == '$'); } else { assert(nm[p + nl] != '$'); } }
+    if row_end < nm.len() { assert(digit_c(nm[row_end])); }
 }
-/// a `$` (the only other char of a single reference) meets a pending cell that is either empty or letters only: neither is a cell name
-proof fn lemma_step_dollar(sb: Seq<u8>, p: int, nl: int, m: int, nd: int, j: int, res0: Seq<u8>, cell0: Seq<u8>, icr0: bool)
-    requires single_ref(sb, p, nl, m, nd), 0 <= j < sb.len(), single_state(sb, p, nl, m, j, res0, cell0, icr0), !is_letter(sb[j]), !is_digit(sb[j]),
-    ensures
-        sb[j] == 0x24,
-        a1_small(cell0, cell0.len() as int), dec10(cell0.subrange(cell0.len() as int, cell0.len() as int)) == 0,
-        single_state(sb, p, nl, m, j + 1, (res0 + cell0).push(0x24), Seq::<u8>::empty(), false),
+/// the A1 name (letters ++ digits, `$`s dropped) of a single reference is a plain reference to the same cell
+proof fn lemma_single_plain(nm: Seq<char>, p: int, nl: int, m: int, nd: int, a1: Seq<char>)
+    requires all_ascii(nm), single_ref(lowb(nm), p, nl, m, nd), a1 == nm.subrange(p, p + nl) + nm.subrange(p + nl + m, nm.len() as int),
+    ensures plain_ref(a1, nl), ref_row(a1, nl) == single_row(lowb(nm), p, nl, m), ref_col(a1, nl) == single_col(lowb(nm), p, nl),
 {
-    lemma_single_char_class(sb, p, nl, m, nd, j);
-    assert(cell0.subrange(cell0.len() as int, cell0.len() as int) =~= Seq::<u8>::empty());
-    if j < p {
-        assert(cell0 =~= Seq::<u8>::empty());
-        assert((res0 + cell0).push(0x24) =~= sb.subrange(0, 1));
-    } else {
-        assert(j == p + nl && m == 1);
-        assert(cell0 == sb.subrange(p, p + nl));
-        assert(cell0.subrange(0, cell0.len() as int) =~= cell0);
-        assert forall|i: int| 0 <= i < cell0.len() implies is_letter(#[trigger] cell0[i]) by { assert(is_upper(cell0[i])); }
-        assert((res0 + cell0).push(0x24) =~= sb.subrange(0, p + nl + 1));
-        assert(sb.subrange(p + nl + 1, p + nl + 1) =~= Seq::<u8>::empty());
+    let sb = lowb(nm);
+    let n = nm.len() as int;
+    assert forall|i: int| 0 <= i < a1.len() implies is_ascii_c(#[trigger] a1[i]) by {
+        if i < nl { assert(is_ascii_c(nm[p + i])); } else { assert(is_ascii_c(nm[p + nl + m + (i - nl)])); }
     }
+    assert(lowb(a1).subrange(0, nl) =~= sb.subrange(p, p + nl));
+    assert(lowb(a1).subrange(nl, a1.len() as int) =~= sb.subrange(p + nl + m, n));
+    assert forall|i: int| 0 <= i < nl implies is_letter(#[trigger] sb.subrange(p, p + nl)[i]) by { assert(is_upper(sb.subrange(p, p + nl)[i])); }
 }
-/// end of a single-reference formula: what is pending
-proof fn lemma_single_final(sb: Seq<u8>, p: int, nl: int, m: int, nd: int, res: Seq<u8>, cell: Seq<u8>, icr: bool)
-    requires single_ref(sb, p, nl, m, nd), single_state(sb, p, nl, m, sb.len() as int, res, cell, icr),
-    ensures
-        cell.len() > 0,
-        m == 1 ==> a1_small(cell, 0) && res + cell == sb,
-        m == 0 ==> a1_small(cell, nl) && res == sb.subrange(0, p)
-            && cell.subrange(0, nl) == sb.subrange(p, p + nl) && cell.subrange(nl, cell.len() as int) == sb.subrange(p + nl, sb.len() as int),
+/// putting the pieces together: `ob` = (kept `$`+letters | moved letters) ++ (kept `$`+digits | moved digits) IS the translation
+proof fn lemma_assemble(sb: Seq<u8>, p: int, nl: int, m: int, nd: int, cn: Seq<u8>, nlo: int, dr: int, dc: int, ob: Seq<u8>)
+    requires
+        single_ref(sb, p, nl, m, nd),
+        name_of(cn, nlo, single_row(sb, p, nl, m) + (if m == 1 { 0 } else { dr }), single_col(sb, p, nl) + (if p == 1 { 0 } else { dc })),
+        ob == (if p == 1 { sb.subrange(0, 1 + nl) } else { cn.subrange(0, nlo) }) + (if m == 1 { sb.subrange(p + nl, sb.len() as int) } else { cn.subrange(nlo, cn.len() as int) }),
+    ensures single_translated(ob, if p == 1 { nl } else { nlo }, sb, p, nl, m, dr, dc),
 {
     let n = sb.len() as int;
-    if m == 1 {
-        assert(cell == sb.subrange(p + nl + 1, n));
-        assert(cell.subrange(0, 0) =~= Seq::<u8>::empty());
-        assert(cell.subrange(0, cell.len() as int) =~= cell);
-        assert(res + cell =~= sb);
+    let nlo2 = if p == 1 { nl } else { nlo };
+    let first = if p == 1 { sb.subrange(0, 1 + nl) } else { cn.subrange(0, nlo) };
+    let second = if m == 1 { sb.subrange(p + nl, n) } else { cn.subrange(nlo, cn.len() as int) };
+    assert(first.len() == p + nlo2);
+    let lo = ob.subrange(p, p + nlo2);
+    let dg = ob.subrange(p + nlo2 + m, ob.len() as int);
+    if p == 1 {
+        assert(ob[0] == sb[0]);
+        assert(lo =~= sb.subrange(p, p + nl));
     } else {
-        assert(cell == sb.subrange(p, n));
-        assert(cell.subrange(0, nl) =~= sb.subrange(p, p + nl));
-        assert(cell.subrange(nl, cell.len() as int) =~= sb.subrange(p + nl, n));
-        assert forall|i: int| 0 <= i < nl implies is_letter(#[trigger] cell.subrange(0, nl)[i]) by { assert(is_upper(sb.subrange(p, p + nl)[i])); }
+        assert(lo =~= cn.subrange(0, nlo));
+    }
+    if m == 1 {
+        assert(ob[p + nlo2] == second[0]);
+        assert(second[0] == sb[p + nl]);
+        assert(dg =~= sb.subrange(p + nl + m, n));
+    } else {
+        assert(dg =~= cn.subrange(nlo, cn.len() as int));
+        assert(dg[0] == cn[nlo]);
     }
 }
-/// the A1 name of the moved cell IS the translation of a fully relative single reference
-proof fn lemma_relative_translated(v: Seq<u8>, sb: Seq<u8>, nl: int, nd: int, dr: int, dc: int)
-    requires single_ref(sb, 0, nl, 0, nd), is_name_of(v, single_row(sb, 0, nl, 0) + dr, single_col(sb, 0, nl) + dc),
-    ensures exists|nlo: int| #[trigger] single_translated(v, nlo, sb, 0, nl, 0, dr, dc),
-{
-    let row = single_row(sb, 0, nl, 0) + dr;
-    let col = single_col(sb, 0, nl) + dc;
-    let nlo = choose|nlo: int| name_of(v, nlo, row, col);
-    assert(v.subrange(nlo, v.len() as int)[0] == v[nlo]);
-    assert(single_translated(v, nlo, sb, 0, nl, 0, dr, dc));
-}
-/// a fully absolute single reference is its own translation
-proof fn lemma_absolute_translated(sb: Seq<u8>, nl: int, nd: int, dr: int, dc: int)
-    requires single_ref(sb, 1, nl, 1, nd),
-    ensures single_translated(sb, nl, sb, 1, nl, 1, dr, dc),
-{
-    assert(sb.len() == 1 + nl + 1 + nd);
-    assert(sb[0] == 0x24 && sb[1 + nl] == 0x24);
-}
 
+//@@ fn src/xlsx/mod.rs offset_cell_reference props=C15,C06 ret=r
+//@@ sig
+    requires
+        offset_small(offset),
+    ensures
+        //# C15.reference_translated
+        forall|p: int, nl: int, m: int, nd: int| all_ascii(name@) && #[trigger] single_ref(lowb(name@), p, nl, m, nd)
+            && single_in_sheet(lowb(name@), p, nl, m, offset.0 as int, offset.1 as int) ==>
+            r is Ok && exists|nlo: int| #[trigger] single_translated(lowb(r->Ok_0@), nlo, lowb(name@), p, nl, m, offset.0 as int, offset.1 as int),
+        //# C15.empty_name_rejected
+        name@.len() == 0 ==> r is Err,
+        //# C15.reference_is_ascii
+        all_ascii(name@) && r is Ok ==> all_ascii(r->Ok_0@),
+//@@ body
+    let ghost nm = name@;
+    let ghost sb = lowb(name@);
+//@@ loop 0
+        invariant
+            nm == name@, col_start <= col_end <= name.len(),
+            forall|i: int| col_start <= i < col_end ==> alpha_c(#[trigger] nm[i]),
+        decreases name.len() - col_end,
+//@@ loop 1
+        invariant
+            nm == name@, row_start <= row_end <= name.len(),
+            forall|i: int| row_start <= i < row_end ==> digit_c(#[trigger] nm[i]),
+        decreases name.len() - row_end,
+//@@ before /if row_end < name\.len\(\)/
+    proof {
+        assert(parse_stops(nm, abs_col, col_end as int, abs_row, row_end as int));
+        assert forall|p: int, nl: int, m: int, nd: int| all_ascii(nm) && #[trigger] single_ref(sb, p, nl, m, nd) implies
+            abs_col == (p == 1) && col_end == p + nl && abs_row == (m == 1) && row_end == nm.len() by {
+            lemma_parse_positions(nm, p, nl, m, nd, abs_col, col_end as int, abs_row, row_end as int);
+        }
+    }
+//@@ before /let cell_name = offset_cell_name/
+    proof {
+        assert(a1@ =~= nm.subrange(col_start as int, col_end as int) + nm.subrange(row_start as int, nm.len() as int));
+        assert(offset_small(offset));
+        if all_ascii(nm) {
+            assert forall|i: int| 0 <= i < a1@.len() implies is_ascii_c(#[trigger] a1@[i]) by {
+                if i < col_end - col_start { assert(is_ascii_c(nm[col_start + i])); } else { assert(is_ascii_c(nm[row_start + (i - (col_end - col_start))])); }
+            }
+        }
+        if nm.len() == 0 {
+            assert(a1@.len() == 0);
+            assert(lowb(a1@).subrange(0, 0) =~= Seq::<u8>::empty());
+            assert(a1_small(lowb(a1@), 0));
+        }
+        assert forall|p: int, nl: int, m: int, nd: int| all_ascii(nm) && #[trigger] single_ref(sb, p, nl, m, nd)
+            && single_in_sheet(sb, p, nl, m, offset0.0 as int, offset0.1 as int) implies
+            plain_ref(a1@, nl) && ref_row(a1@, nl) == single_row(sb, p, nl, m) && ref_col(a1@, nl) == single_col(sb, p, nl)
+            && 0 <= ref_row(a1@, nl) + offset.0 <= 0xFFFF_FFFF && 0 <= ref_col(a1@, nl) + offset.1 < 16384 by {
+            lemma_single_plain(nm, p, nl, m, nd, a1@);
+            lemma_a1_small_range(lowb(a1@), nl);
+        }
+    }
+//@@ before /let mut moved = Vec::new\(\)/
+    let ghost cn = cell_name@;
+    proof {
+        assert forall|v: Seq<u8>, row: int, col: int| #[trigger] is_name_of(v, row, col) implies bytes_ascii(v) by { lemma_name_ascii(v, row, col); }
+        lemma_ascii_roundtrip(cn);
+    }
+//@@ loop 2 it
+        invariant
+            it.seq() == cn,
+            moved@ == as_chars(cn.subrange(0, it.index@ as int)),
+//@@ before /moved\.push\(c as char\)/
+        proof { assert(as_chars(cn.subrange(0, it.index@ + 1)) =~= as_chars(cn.subrange(0, it.index@ as int)).push(c as char)); }
+//@@ before /let mut digits = 0/
+    proof { assert(cn.subrange(0, cn.len() as int) =~= cn); }
+    let ghost nlo0 = choose|nlo: int| exists|row: int, col: int| name_of(cn, nlo, row, col);
+    let ghost named = exists|nlo: int, row: int, col: int| name_of(cn, nlo, row, col);
+//@@ loop 3
+        invariant
+            moved@ == as_chars(cn), digits <= moved.len(),
+            named == (exists|nlo: int, row: int, col: int| name_of(cn, nlo, row, col)),
+            named ==> (exists|row: int, col: int| name_of(cn, nlo0, row, col)) && digits <= nlo0,
+            forall|i: int| 0 <= i < digits ==> alpha_c(#[trigger] moved@[i]),
+        decreases moved.len() - digits,
+//@@ before /digits \+= 1/
+        proof {
+            if named {
+                let (row, col) = choose|row: int, col: int| name_of(cn, nlo0, row, col);
+                if digits == nlo0 { assert(is_digit(cn.subrange(nlo0, cn.len() as int)[0])); assert(moved@[digits as int] == cn[nlo0] as char); assert(false); }
+            }
+        }
+//@@ before /Ok\(res\)/
+    proof {
+        if named {
+            let (row, col) = choose|row: int, col: int| name_of(cn, nlo0, row, col);
+            if digits < nlo0 { assert(is_upper(cn.subrange(0, nlo0)[digits as int])); assert(moved@[digits as int] == cn[digits as int] as char); assert(false); }
+            assert(digits == nlo0);
+        }
+        let first = if abs_col { nm.subrange(0, col_end as int) } else { moved@.subrange(0, digits as int) };
+        let second = if abs_row { nm.subrange(col_end as int, nm.len() as int) } else { moved@.subrange(digits as int, moved@.len() as int) };
+        assert(res@ =~= first + second);
+        if all_ascii(nm) {
+            assert forall|i: int| 0 <= i < res@.len() implies is_ascii_c(#[trigger] res@[i]) by {
+                if i < first.len() {
+                    if abs_col { assert(is_ascii_c(nm[i])); } else { assert(is_ascii_c(as_chars(cn)[i])); }
+                } else {
+                    let j = i - first.len();
+                    if abs_row { assert(is_ascii_c(nm[col_end + j])); } else { assert(is_ascii_c(as_chars(cn)[digits + j])); }
+                }
+            }
+        }
+        assert forall|p: int, nl: int, m: int, nd: int| all_ascii(nm) && #[trigger] single_ref(sb, p, nl, m, nd)
+            && single_in_sheet(sb, p, nl, m, offset0.0 as int, offset0.1 as int) implies
+            exists|nlo: int| #[trigger] single_translated(lowb(res@), nlo, sb, p, nl, m, offset0.0 as int, offset0.1 as int) by {
+            let rr = single_row(sb, p, nl, m) + (if m == 1 { 0 } else { offset0.0 as int });
+            let cc = single_col(sb, p, nl) + (if p == 1 { 0 } else { offset0.1 as int });
+            assert(plain_ref(a1@, nl));
+            assert(is_name_of(cn, rr, cc));
+            let nlo = choose|nlo: int| name_of(cn, nlo, rr, cc);
+            assert(named);
+            // the letters/digits split of a name is unique
+            assert(nlo == nlo0) by {
+                let (row, col) = choose|row: int, col: int| name_of(cn, nlo0, row, col);
+                if nlo < nlo0 { assert(is_upper(cn.subrange(0, nlo0)[nlo])); assert(is_digit(cn.subrange(nlo, cn.len() as int)[0])); }
+                if nlo > nlo0 { assert(is_upper(cn.subrange(0, nlo)[nlo0])); assert(is_digit(cn.subrange(nlo0, cn.len() as int)[0])); }
+            }
+            let ob = lowb(res@);
+            let fb = if p == 1 { sb.subrange(0, 1 + nl) } else { cn.subrange(0, nlo) };
+            let sb2 = if m == 1 { sb.subrange(p + nl, sb.len() as int) } else { cn.subrange(nlo, cn.len() as int) };
+            assert(lowb(first) =~= fb);
+            assert(lowb(second) =~= sb2);
+            assert(ob =~= fb + sb2);
+            lemma_assemble(sb, p, nl, m, nd, cn, nlo, offset0.0 as int, offset0.1 as int, ob);
+            assert(single_translated(ob, if p == 1 { nl } else { nlo }, sb, p, nl, m, offset0.0 as int, offset0.1 as int));
+        }
+    }
+//@@ end
+proof fn witness_offset_cell_reference() { assert(offset_small((-2i64, 5i64))); }
 
 // ---- a call of a function whose name has the shape LETTERS DIGITS LETTERS, e.g. DEC2BIN(): "function names ... are reproduced unchanged"
 /// sb = L1 (a upper-case letters) ++ D (b digits) ++ L2 (c upper-case letters) ++ "()"
@@ -448,13 +549,6 @@ pub open spec fn call_shape(sb: Seq<u8>, a: int, b: int, c: int) -> bool {
     1 <= a <= 6 && 1 <= b <= 9 && 1 <= c <= 6 && sb.len() == a + b + c + 2
     && all_upper(sb.subrange(0, a)) && all_digits(sb.subrange(a, a + b)) && all_upper(sb.subrange(a + b, a + b + c))
     && sb[a + b + c] == 0x28 && sb[a + b + c + 1] == 0x29
-}
-/// state of the scanner after k chars of such a formula
-pub open spec fn call_state(sb: Seq<u8>, a: int, b: int, c: int, k: int, res: Seq<u8>, cell: Seq<u8>, is_cell_row: bool) -> bool {
-    if k <= a { res.len() == 0 && cell == sb.subrange(0, k) && !is_cell_row }
-    else if k <= a + b { res.len() == 0 && cell == sb.subrange(0, k) && is_cell_row }
-    else if k <= a + b + c { res == sb.subrange(0, a + b) && cell == sb.subrange(a + b, k) && !is_cell_row }
-    else { res == sb.subrange(0, k) && cell.len() == 0 && !is_cell_row }
 }
 proof fn lemma_call_char_class(sb: Seq<u8>, a: int, b: int, c: int, j: int)
     requires call_shape(sb, a, b, c), 0 <= j < sb.len(),
@@ -469,58 +563,11 @@ proof fn lemma_call_char_class(sb: Seq<u8>, a: int, b: int, c: int, j: int)
     if a <= j < a + b { assert(is_digit(sb.subrange(a, a + b)[j - a])); }
     if a + b <= j < a + b + c { assert(is_upper(sb.subrange(a + b, a + b + c)[j - (a + b)])); }
 }
-proof fn lemma_call_letter(sb: Seq<u8>, a: int, b: int, c: int, j: int, res0: Seq<u8>, cell0: Seq<u8>, icr0: bool)
-    requires call_shape(sb, a, b, c), 0 <= j < sb.len(), call_state(sb, a, b, c, j, res0, cell0, icr0), is_letter(sb[j]),
-    ensures call_state(sb, a, b, c, j + 1, if icr0 { res0 + cell0 } else { res0 }, if icr0 { seq![sb[j]] } else { cell0.push(sb[j]) }, false),
-{
-    lemma_call_char_class(sb, a, b, c, j);
-    assert(j < a || a + b <= j < a + b + c);
-    if j < a {
-        assert(sb.subrange(0, j + 1) =~= sb.subrange(0, j).push(sb[j]));
-    } else if j == a + b {
-        assert(icr0);
-        assert(res0 + cell0 =~= sb.subrange(0, a + b));
-        assert(seq![sb[j]] =~= sb.subrange(a + b, j + 1));
-    } else {
-        assert(sb.subrange(a + b, j + 1) =~= sb.subrange(a + b, j).push(sb[j]));
-    }
-}
-proof fn lemma_call_digit(sb: Seq<u8>, a: int, b: int, c: int, j: int, res0: Seq<u8>, cell0: Seq<u8>, icr0: bool)
-    requires call_shape(sb, a, b, c), 0 <= j < sb.len(), call_state(sb, a, b, c, j, res0, cell0, icr0), is_digit(sb[j]),
-    ensures call_state(sb, a, b, c, j + 1, res0, cell0.push(sb[j]), true),
-{
-    lemma_call_char_class(sb, a, b, c, j);
-    assert(a <= j < a + b);
-    assert(sb.subrange(0, j + 1) =~= sb.subrange(0, j).push(sb[j]));
-}
-/// `(` meets the pending letters-only cell L2, `)` an empty one: neither is a cell name, both are copied
-proof fn lemma_call_other(sb: Seq<u8>, a: int, b: int, c: int, j: int, res0: Seq<u8>, cell0: Seq<u8>, icr0: bool)
-    requires call_shape(sb, a, b, c), 0 <= j < sb.len(), call_state(sb, a, b, c, j, res0, cell0, icr0), !is_letter(sb[j]), !is_digit(sb[j]),
-    ensures
-        a1_small(cell0, cell0.len() as int), dec10(cell0.subrange(cell0.len() as int, cell0.len() as int)) == 0,
-        call_state(sb, a, b, c, j + 1, (res0 + cell0).push(sb[j]), Seq::<u8>::empty(), false),
-{
-    lemma_call_char_class(sb, a, b, c, j);
-    assert(j == a + b + c || j == a + b + c + 1) by {
-        if j < a { assert(is_upper(sb[j])); } else if j < a + b { assert(is_digit(sb[j])); } else if j < a + b + c { assert(is_upper(sb[j])); }
-    }
-    let n0 = cell0.len() as int;
-    assert(cell0.subrange(n0, n0) =~= Seq::<u8>::empty());
-    assert(cell0.subrange(0, n0) =~= cell0);
-    if j == a + b + c {
-        assert(res0 == sb.subrange(0, a + b) && cell0 == sb.subrange(a + b, j) && !icr0);
-        assert(n0 == c);
-        assert forall|i: int| 0 <= i < n0 implies is_letter(#[trigger] cell0[i]) by { assert(is_upper(sb.subrange(a + b, a + b + c)[i])); }
-        assert(all_letters(cell0.subrange(0, n0)));
-        assert(all_digits(cell0.subrange(n0, n0)));
-        assert(a1_shape(cell0, n0));
-        assert((res0 + cell0).push(sb[j]) =~= sb.subrange(0, j + 1));
-    } else {
-        assert(res0 == sb.subrange(0, j) && n0 == 0);
-        assert(cell0 =~= Seq::<u8>::empty());
-        assert(a1_shape(cell0, 0));
-        assert((res0 + cell0).push(sb[j]) =~= sb.subrange(0, j + 1));
-    }
+/// a name character of the scanner: letters, digits, `$`, `_`, `.` and everything outside ASCII
+pub open spec fn name_c(c: char) -> bool { alpha_c(c) || digit_c(c) || c == '$' || c == '_' || c == '.' || !is_ascii_c(c) }
+/// a string literal: `"`, any chars but `"` (ASCII or not), `"`
+pub open spec fn string_literal(s: Seq<char>) -> bool {
+    s.len() >= 2 && s[0] == '"' && s[s.len() - 1] == '"' && forall|i: int| 0 < i < s.len() - 1 ==> #[trigger] s[i] != '"'
 }
 
 //@@ fn src/xlsx/mod.rs replace_cell_names props=C15,C06 ret=r
@@ -537,25 +584,19 @@ proof fn lemma_call_other(sb: Seq<u8>, a: int, b: int, c: int, j: int, res0: Seq
             && single_in_sheet(lowb(s@), p, nl, m, offset.0 as int, offset.1 as int) ==>
             r is Ok && all_ascii(r->Ok_0@)
             && exists|nlo: int| #[trigger] single_translated(lowb(r->Ok_0@), nlo, lowb(s@), p, nl, m, offset.0 as int, offset.1 as int),
-        //# C15.single_reference_translated_uniform
-        forall|p: int, nl: int, m: int, nd: int| all_ascii(s@) && #[trigger] single_ref(lowb(s@), p, nl, m, nd) && p == m
-            && single_in_sheet(lowb(s@), p, nl, m, offset.0 as int, offset.1 as int) ==>
-            r is Ok && all_ascii(r->Ok_0@)
-            && exists|nlo: int| #[trigger] single_translated(lowb(r->Ok_0@), nlo, lowb(s@), p, nl, m, offset.0 as int, offset.1 as int),
         //# C15.function_name_digit_letter_kept
         forall|a: int, b: int, c: int| all_ascii(s@) && #[trigger] call_shape(lowb(s@), a, b, c) ==>
             r is Ok && all_ascii(r->Ok_0@) && lowb(r->Ok_0@) == lowb(s@),
+        //# C15.string_literal_kept
+        // (whatever it contains: cell-like text, non-ASCII characters)
+        string_literal(s@) ==> r is Ok && r->Ok_0@ == s@,
 //@@ body
-    broadcast use {axiom_iter_items_vec_u8, lemma_bytes_ascii_add, lemma_bytes_ascii_push, lemma_lowb_ascii, lemma_all_ascii_push};
+    broadcast use {axiom_iter_chars_slice, lemma_all_ascii_push};
     let ghost sb = lowb(s@);
     let ghost mut k: int = 0;
 //@@ before /for c in s\.chars\(\)/
     proof {
-        assert(lowb(cell@) =~= Seq::<u8>::empty());
-        assert forall|p: int, nl: int, m: int, nd: int| #[trigger] single_ref(sb, p, nl, m, nd) implies
-            single_state(sb, p, nl, m, 0, res@, lowb(cell@), is_cell_row) by { assert(sb.subrange(0, 0) =~= Seq::<u8>::empty()); }
-        assert forall|a: int, b: int, c: int| #[trigger] call_shape(sb, a, b, c) implies
-            call_state(sb, a, b, c, 0, res@, lowb(cell@), is_cell_row) by { assert(sb.subrange(0, 0) =~= Seq::<u8>::empty()); }
+        assert(s@.subrange(0, 0) =~= Seq::<char>::empty());
     }
 //@@ r6 0
 //@@ loop 0
@@ -564,136 +605,65 @@ proof fn lemma_call_other(sb: Seq<u8>, a: int, b: int, c: int, j: int, res0: Seq
             __it0.obeys_prophetic_iter_laws(),
             __it0.remaining() == s@.skip(k),
             offset_small(offset),
-            all_ascii(s@) ==> bytes_ascii(res@) && all_ascii(cell@),
             sb == lowb(s@),
+            all_ascii(s@) ==> all_ascii(res@) && all_ascii(name@),
+            // one reference: everything so far is the pending name
             all_ascii(s@) ==> forall|p: int, nl: int, m: int, nd: int| #[trigger] single_ref(sb, p, nl, m, nd) ==>
-                !in_quote && single_state(sb, p, nl, m, k, res@, lowb(cell@), is_cell_row),
+                quote is None && res@.len() == 0 && name@ == s@.subrange(0, k),
+            // NAME(): the name is pending up to `(`, then everything is copied
             all_ascii(s@) ==> forall|a: int, b: int, c: int| #[trigger] call_shape(sb, a, b, c) ==>
-                !in_quote && call_state(sb, a, b, c, k, res@, lowb(cell@), is_cell_row),
+                quote is None && (if k <= a + b + c { res@.len() == 0 && name@ == s@.subrange(0, k) } else { res@ == s@.subrange(0, k) && name@.len() == 0 }),
+            // "...": copied, inside the quote until its last char
+            string_literal(s@) ==> name@.len() == 0 && res@ == s@.subrange(0, k) && (quote == (if 0 < k < s@.len() { Some('"') } else { None::<char> })),
         ensures k == s@.len(),
         decreases s@.len() - k,
-//@@ before /if c == /
-        broadcast use {axiom_iter_items_vec_u8, lemma_bytes_ascii_add, lemma_bytes_ascii_push, lemma_lowb_ascii, lemma_all_ascii_push};
+//@@ before /if let Some\(q\) = quote/
+        broadcast use {axiom_iter_chars_slice, lemma_all_ascii_push};
         let ghost res0 = res@;
-        let ghost cell0 = cell@;
-        let ghost icr0 = is_cell_row;
-        let ghost inq0 = in_quote;
-        proof { k = k + 1; assert(c == s@.skip(k - 1)[0]); assert(c == s@[k - 1]); if all_ascii(s@) { assert(is_ascii_c(s@[k - 1])); assert(sb[k - 1] == c as u8); }
-            // on a single-reference formula the current char is `$`, an upper-case letter or a digit: never a quote
-            assert forall|p: int, nl: int, m: int, nd: int| all_ascii(s@) && #[trigger] single_ref(sb, p, nl, m, nd) implies c != '"' by {
+        let ghost name0 = name@;
+        proof { k = k + 1; assert(c == s@.skip(k - 1)[0]); assert(c == s@[k - 1]);
+            assert(s@.subrange(0, k) =~= s@.subrange(0, k - 1).push(c));
+            if all_ascii(s@) { assert(is_ascii_c(s@[k - 1])); assert(sb[k - 1] == c as u8); }
+            assert forall|p: int, nl: int, m: int, nd: int| all_ascii(s@) && #[trigger] single_ref(sb, p, nl, m, nd) implies name_c(c) by {
                 lemma_single_char_class(sb, p, nl, m, nd, k - 1);
             }
-            assert forall|a: int, b: int, c2: int| all_ascii(s@) && #[trigger] call_shape(sb, a, b, c2) implies c != '"' by {
+            assert forall|a: int, b: int, c2: int| all_ascii(s@) && #[trigger] call_shape(sb, a, b, c2) implies
+                (k - 1 < a + b + c2 ==> name_c(c)) && (k - 1 == a + b + c2 ==> c == '(') && (k - 1 == a + b + c2 + 1 ==> c == ')') by {
                 lemma_call_char_class(sb, a, b, c2, k - 1);
             }
         }
-//@@ before /continue;/
+//@@ before /res\.extend\(name\.iter\(\)\);/#0of2
+            let ghost name1 = name@;
+//@@ after /res\.extend\(name\.iter\(\)\);/#0of2
             proof {
-                assert(all_ascii(s@) ==> forall|p: int, nl: int, m: int, nd: int| !#[trigger] single_ref(sb, p, nl, m, nd));
-                assert(all_ascii(s@) ==> forall|a: int, b: int, c2: int| !#[trigger] call_shape(sb, a, b, c2));
-            }
-//@@ after /cell\.push\(c\);/#0of2
-            proof {
+                assert(res@ == res0 + name1);
                 if all_ascii(s@) {
-                    assert forall|p: int, nl: int, m: int, nd: int| #[trigger] single_ref(sb, p, nl, m, nd) implies
-                        !in_quote && single_state(sb, p, nl, m, k, res@, lowb(cell@), is_cell_row) by {
-                        lemma_step_letter(sb, p, nl, m, nd, k - 1, res0, lowb(cell0), icr0);
-                        assert(!icr0);
-                        assert(lowb(cell@) =~= lowb(cell0).push(c as u8));
+                    assert forall|i: int| 0 <= i < res@.len() implies is_ascii_c(#[trigger] res@[i]) by {
+                        if i < res0.len() { assert(is_ascii_c(res0[i])); } else { assert(is_ascii_c(name1[i - res0.len()])); }
                     }
-                    assert forall|a: int, b: int, c2: int| #[trigger] call_shape(sb, a, b, c2) implies
-                        !in_quote && call_state(sb, a, b, c2, k, res@, lowb(cell@), is_cell_row) by {
-                        lemma_call_letter(sb, a, b, c2, k - 1, res0, lowb(cell0), icr0);
-                        if icr0 { assert(lowb(cell@) =~= seq![c as u8]); } else { assert(lowb(cell@) =~= lowb(cell0).push(c as u8)); }
-                    }
+                    assert forall|a: int, b: int, c2: int| #[trigger] call_shape(sb, a, b, c2) implies res@ =~= s@.subrange(0, k - 1) by { }
                 }
             }
-//@@ after /cell\.push\(c\);/#1of2
-            proof {
-                if all_ascii(s@) {
-                    assert(lowb(cell@) =~= lowb(cell0).push(c as u8));
-                    assert forall|p: int, nl: int, m: int, nd: int| #[trigger] single_ref(sb, p, nl, m, nd) implies
-                        !in_quote && single_state(sb, p, nl, m, k, res@, lowb(cell@), is_cell_row) by {
-                        lemma_step_digit(sb, p, nl, m, nd, k - 1, res0, lowb(cell0), icr0);
-                    }
-                    assert forall|a: int, b: int, c2: int| #[trigger] call_shape(sb, a, b, c2) implies
-                        !in_quote && call_state(sb, a, b, c2, k, res@, lowb(cell@), is_cell_row) by {
-                        lemma_call_digit(sb, a, b, c2, k - 1, res0, lowb(cell0), icr0);
-                    }
-                }
-            }
-//@@ before /if let Ok\(cell_name\) = /#0of2
-            proof {
-                if all_ascii(s@) {
-                    assert forall|p: int, nl: int, m: int, nd: int| #[trigger] single_ref(sb, p, nl, m, nd) implies
-                        a1_small(lowb(cell0), cell0.len() as int) && dec10(lowb(cell0).subrange(cell0.len() as int, cell0.len() as int)) == 0 by {
-                        lemma_step_dollar(sb, p, nl, m, nd, k - 1, res0, lowb(cell0), icr0);
-                    }
-                    assert forall|a: int, b: int, c2: int| #[trigger] call_shape(sb, a, b, c2) implies
-                        a1_small(lowb(cell0), cell0.len() as int) && dec10(lowb(cell0).subrange(cell0.len() as int, cell0.len() as int)) == 0 by {
-                        lemma_call_other(sb, a, b, c2, k - 1, res0, lowb(cell0), icr0);
-                    }
-                }
-            }
-//@@ after /res\.push\(c as u8\);/#1of2
-            proof {
-                if all_ascii(s@) {
-                    assert(lowb(cell@) =~= Seq::<u8>::empty());
-                    assert forall|p: int, nl: int, m: int, nd: int| #[trigger] single_ref(sb, p, nl, m, nd) implies
-                        !in_quote && single_state(sb, p, nl, m, k, res@, lowb(cell@), is_cell_row) by {
-                        lemma_step_dollar(sb, p, nl, m, nd, k - 1, res0, lowb(cell0), icr0);
-                        assert(res@ == (res0 + lowb(cell0)).push(0x24));
-                    }
-                    assert forall|a: int, b: int, c2: int| #[trigger] call_shape(sb, a, b, c2) implies
-                        !in_quote && call_state(sb, a, b, c2, k, res@, lowb(cell@), is_cell_row) by {
-                        lemma_call_other(sb, a, b, c2, k - 1, res0, lowb(cell0), icr0);
-                        assert(res@ == (res0 + lowb(cell0)).push(sb[k - 1]));
-                    }
-                }
-            }
-//@@ before /if !cell\.is_empty\(\)/
-    let ghost res1 = res@;
-    let ghost cell1 = cell@;
+//@@ before /Ok\(res\)/
     proof {
         assert(k == s@.len());
+        assert(s@.subrange(0, k) =~= s@);
         if all_ascii(s@) {
-            assert forall|p: int, nl: int, m: int, nd: int| #[trigger] single_ref(sb, p, nl, m, nd) implies
-                cell1.len() > 0 && (m == 1 ==> a1_small(lowb(cell1), 0) && res1 + lowb(cell1) == sb)
-                && (m == 0 ==> plain_ref(cell1, nl) && res1 == sb.subrange(0, p) && ref_row(cell1, nl) == single_row(sb, p, nl, m) && ref_col(cell1, nl) == single_col(sb, p, nl)) by {
-                lemma_single_final(sb, p, nl, m, nd, res1, lowb(cell1), is_cell_row);
+            assert forall|i: int| 0 <= i < res@.len() implies is_ascii_c(#[trigger] res@[i]) by {
+                if i < res2.len() { assert(is_ascii_c(res2[i])); } else { assert(is_ascii_c(name2[i - res2.len()])); }
             }
-            assert forall|a: int, b: int, c2: int| #[trigger] call_shape(sb, a, b, c2) implies cell1.len() == 0 && res1 == sb by {
-                assert(sb.subrange(0, sb.len() as int) =~= sb);
-            }
-        }
-    }
-
-//@@ before /match String::from_utf8/
-    proof {
-        if all_ascii(s@) {
-            assert forall|p: int, nl: int, m: int, nd: int| #[trigger] single_ref(sb, p, nl, m, nd) && p == m
+            assert forall|a: int, b: int, c2: int| #[trigger] call_shape(sb, a, b, c2) implies lowb(res@) == sb by { assert(res@ =~= s@); }
+            assert forall|p: int, nl: int, m: int, nd: int| #[trigger] single_ref(sb, p, nl, m, nd)
                 && single_in_sheet(sb, p, nl, m, offset.0 as int, offset.1 as int) implies
-                exists|nlo: int| #[trigger] single_translated(res@, nlo, sb, p, nl, m, offset.0 as int, offset.1 as int) by {
-                if m == 1 {
-                    assert(res@ == sb);
-                    lemma_absolute_translated(sb, nl, nd, offset.0 as int, offset.1 as int);
-                } else {
-                    assert(res1 =~= Seq::<u8>::empty());
-                    lemma_relative_translated(res@, sb, nl, nd, offset.0 as int, offset.1 as int);
-                }
+                exists|nlo: int| #[trigger] single_translated(lowb(res@), nlo, sb, p, nl, m, offset.0 as int, offset.1 as int) by {
+                assert(res@ =~= name2);
             }
         }
-        if bytes_ascii(res@) {
-            lemma_ascii_roundtrip(res@);
-            assert forall|t: Seq<char>| utf8(t) == res@ implies t == as_chars(res@) by { axiom_utf8_injective(t, as_chars(res@)); }
-        }
+        if string_literal(s@) { assert(res@ =~= s@); }
     }
-//@@ replace /cell\.iter\(\)\.map\(\|c\| \*c as u8\)/#0of3 vstd's Map gives no relation to the closure; replaced by verif_low_bytes (TRUSTED contract: what `.iter().map(|c| *c as u8)` yields)
-verif_low_bytes(cell.as_slice())
-//@@ replace /cell\.iter\(\)\.map\(\|c\| \*c as u8\)/#1of3 same rewrite
-verif_low_bytes(cell.as_slice())
-//@@ replace /cell\.iter\(\)\.map\(\|c\| \*c as u8\)/#2of3 same rewrite
-verif_low_bytes(cell.as_slice())
+//@@ before /res\.extend\(name\.iter\(\)\);/#1of2
+    let ghost res2 = res@;
+    let ghost name2 = name@;
 //@@ end
 proof fn witness_replace_cell_names() { assert(offset_small((0i64, 3i64))); }
 /// the function-call shape is inhabited: "DEC2BIN()"
